@@ -13,74 +13,89 @@
 (* and status bytes change); for k = 1 nothing is freed and FileStorage    *)
 (* leaves the file alone ("pack didn't free any data").  Quick mode relies *)
 (* on that: it looks at the size and at the last backed-up range only.     *)
-(* A voted-but-unfinished transaction is one more                          *)
-(* chunk at the end of the file (TailId) that a read-only open of the      *)
-(* file does not count (status "c").  md5 sums are modelled by the         *)
-(* chunk sequence they were computed from (equal sums <=> equal bytes).    *)
+(* A voted-but-unfinished transaction is one more chunk at the end of the  *)
+(* file (TailId) that a read-only open of the file does not count (status  *)
+(* "c").  md5 sums are modelled by the chunk sequence they were computed   *)
+(* from (equal sums <=> equal bytes).                                      *)
+(*                                                                         *)
+(* The repository is what the directory holds: data files named by time    *)
+(* stamp (1 s resolution) + kind (.deltafs < .deltafsz < .fs < .fsz in     *)
+(* name order), one .index per time stamp, one .dat per time stamp of a    *)
+(* full backup.  The clock need not advance between two runs.              *)
 (*                                                                         *)
 (* One action per operation that changes something: Commit, BeginTail,     *)
-(* AbortTail, Pack(k), Backup(o) (transcription of do_backup / find_files  *)
-(* / scandat / do_full_backup / do_incremental_backup /                    *)
-(* delete_old_backups), Damage(t, kind).  The queries (do_recover for      *)
-(* every date, do_verify full and quick) are the derived variable `obs`,   *)
+(* AbortTail, Pack(k), Backup(o, adv) (transcription of do_backup /        *)
+(* find_files / scandat / do_full_backup / do_incremental_backup /         *)
+(* delete_old_backups), Damage(t, r, kind) of any one file.  The queries   *)
+(* (do_recover for every date - full and truncated date form, with and     *)
+(* without -w -, do_verify full and quick) are the derived variable `obs`, *)
 (* a function of the other variables (no extra states) that TLC prints     *)
-(* with every state: the replay performs the real calls after every step   *)
-(* and compares.  `obs` also carries what the *property* demands (`want`,  *)
-(* `must`): the snapshot (ghost variable `runs`) of the last run not later *)
-(* than the date among those the repository still holds; that part does    *)
-(* not depend on how the code chooses or reads files.                      *)
+(* with every state: the replay performs the real calls and compares.      *)
+(* `obs` also carries what the *property* demands (`want`, `must`): the    *)
+(* snapshot (ghost variable `runs`) of the last run not later than the     *)
+(* date among those the repository still holds; that part does not depend  *)
+(* on how the code chooses or reads files.                                 *)
 (*                                                                         *)
-(* Two Boolean constants select the behaviour of the code as it is where   *)
-(* it violates the property (TRUE = as the code is):                       *)
-(*   QuickTrustsEmptyRange                                                 *)
-(*                   quick mode (-Q) compares the md5 of the range of the  *)
-(*                   last .dat line even when that range is empty (an      *)
-(*                   incremental written while the only new bytes belonged *)
-(*                   to a transaction in progress): the sums always match  *)
-(*                   (F14).  FALSE: an empty last range says nothing, the  *)
-(*                   run falls back to the comparing procedure             *)
-(*   NoopPackRewrites                                                      *)
-(*                   a pack that frees nothing still replaces the data     *)
-(*                   file by a copy of the same size in which the          *)
-(*                   transactions up to the pack time are flagged packed   *)
-(*                   (not what FileStorage does: TLC shows that quick mode *)
-(*                   would then miss the pack)                             *)
+(* Boolean constants select the behaviour of the code as it is where it    *)
+(* violates the property (TRUE = as the code is / was):                    *)
+(*   QuickTrustsEmptyRange  quick mode (-Q) compares the md5 of the range  *)
+(*        of the last .dat line even when that range is empty (F14).       *)
+(*        FALSE: the run falls back to the comparing procedure             *)
+(*   NoopPackRewrites  a pack that frees nothing still replaces the data   *)
+(*        file by a copy of the same size with the packed flags set (not   *)
+(*        what FileStorage does: quick mode would miss the pack)           *)
 (*   ChainByListing  the chain of files to use is derived from the         *)
-(*                   directory listing alone (F18); FALSE: from the        *)
-(*                   listing *and* the .dat of its full backup, a missing  *)
-(*                   member being an error                                 *)
+(*        directory listing alone (F18); FALSE: a missing member of the    *)
+(*        recorded chain is an error                                       *)
+(*   VerifyNewestOnly  verification reads the .dat of the newest full      *)
+(*        backup only; files of older generations are never looked at.     *)
+(*        FALSE: every .dat of the repository is verified                  *)
+(*   SameStampAllowed  a run is refused only if the very file name exists; *)
+(*        a full backup and an incremental of one clock second give T.fs   *)
+(*        and T.deltafs, share T.index (and T.dat with a second full), and *)
+(*        find_files meets T.fs first.  FALSE: a run into a second that    *)
+(*        already holds a backup file is refused                           *)
+(*   ShortDateStrict  a truncated date (yyyy-mm-dd[-hh[-mm]]) is compared  *)
+(*        as a string with the file names and so excludes the backup taken *)
+(*        at exactly that instant.  FALSE: it means that instant           *)
 (***************************************************************************)
 EXTENDS Naturals, Sequences, FiniteSets, TLC
 
 CONSTANTS MaxChunks,      \* bound on the committed chunks of the source file
           MaxOps,         \* bound on the number of actions
-          MaxBackups,     \* bound on backup runs (a run = one timestamp)
+          MaxBackups,     \* bound on backup runs
+          MaxSame,        \* bound on runs made without the clock having advanced
           Opts,           \* option combinations of Backup: subset of 0..15, bits full=1 quick=2 gzip=4 killold=8
-          QuickTrustsEmptyRange, NoopPackRewrites, ChainByListing
+          QuickTrustsEmptyRange, NoopPackRewrites, ChainByListing, VerifyNewestOnly, SameStampAllowed, ShortDateStrict
 
 VARIABLES src,            \* committed chunks of the data file
           tail,           \* TRUE: a voted, unfinished transaction follows the committed part
           fresh,          \* next unused chunk identity
           packed,         \* the first transaction of the file carries the "packed" status (a pack got that far)
-          now,            \* number of backup runs so far = timestamp of the last one
-          files,          \* repository: data files in name (= time) order, each with its .index and (full) its .dat
-          runs,           \* ghost: <<[t, snap]>> committed chunks at every backup run (also runs that wrote
-                          \* nothing); runs[t].t = t
-          dmg,            \* single-file damage: [t, kind]; t = 0: intact
+          now,            \* the clock (seconds); a run at second t names its files t
+          nb,             \* number of backup runs so far
+          same,           \* number of runs made without the clock having advanced
+          files,          \* data files in name order: [t, full, gz, content, by]  (by: ghost, index into runs)
+          idx,            \* .index files: <<[t, ix]>>
+          dats,           \* .dat files: <<[t, lines]>>, a line = [t, full, gz, s, e, sum] naming a data file
+          runs,           \* ghost: <<[t, snap]>> committed chunks at every backup run that was not refused
+          shared,         \* ghost: some file was written into a second that already held one
+          dmg,            \* single-file damage: [t, r, kind]; r = rank of the data file's kind, 4 = the .index; t = 0: intact
           res,            \* outcome of the last action
           obs,            \* derived: answers of recover / verify and what the property demands of them
           ops
 
-vars == <<src, tail, fresh, packed, now, files, runs, dmg, res, obs, ops>>
+vars == <<src, tail, fresh, packed, now, nb, same, files, idx, dats, runs, shared, dmg, res, obs, ops>>
 
 TailId == 0
-NoDmg == [t |-> 0, kind |-> "none"]
+NoDmg == [t |-> 0, r |-> 0, kind |-> "none"]
 OptFull(o)  == o % 2 = 1
 OptQuick(o) == (o \div 2) % 2 = 1
 OptGz(o)    == (o \div 4) % 2 = 1
 OptKill(o)  == (o \div 8) % 2 = 1
 
 Max(S) == CHOOSE x \in S : \A y \in S : y <= x
+Min(S) == CHOOSE x \in S : \A y \in S : x <= y
 \* bytes [a, b) of a file, at chunk granularity
 Range(s, a, b) == SubSeq(s, a + 1, b)
 \* what os.path.getsize / open(options.file) see: the in-progress transaction is in the file
@@ -91,95 +106,142 @@ CommittedEnd == Len(src)
 RECURSIVE Cat(_)
 Cat(fs) == IF fs = <<>> THEN <<>> ELSE Head(fs).content \o Cat(Tail(fs))
 
+(* ------------------------------ file names ----------------------------- *)
+\* '.deltafs' < '.deltafsz' < '.fs' < '.fsz' as strings
+Rank(f) == (IF f.full THEN 2 ELSE 0) + (IF f.gz THEN 1 ELSE 0)
+Key(f) == f.t * 4 + Rank(f)
+Named(f, t, r) == f.t = t /\ Rank(f) = r
+LineIs(l, f) == l.t = f.t /\ l.full = f.full /\ l.gz = f.gz
+Insert(fs, f) ==
+  LET Lt(g) == Key(g) < Key(f)
+      Gt(g) == Key(g) > Key(f)
+  IN SelectSeq(fs, Lt) \o <<f>> \o SelectSeq(fs, Gt)
+HasT(sq, t) == \E i \in 1..Len(sq) : sq[i].t = t
+AtT(sq, t) == sq[CHOOSE i \in 1..Len(sq) : sq[i].t = t]
+DropT(sq, T) == LET Keep(e) == e.t \notin T IN SelectSeq(sq, Keep)
+SetT(sq, e) == IF HasT(sq, e.t) THEN [i \in 1..Len(sq) |-> IF sq[i].t = e.t THEN e ELSE sq[i]] ELSE Append(sq, e)
+LinesAt(dts, t) == IF HasT(dts, t) THEN AtT(dts, t).lines ELSE <<>>
+
 (* ------------------------------ find_files ----------------------------- *)
-\* newest file first, keep those named <= when, stop at the first full backup; chronological order
-ChainOf(fs, when) ==
-  LET IsLe(f) == f.t <= when
+\* newest name first, keep those whose stamp is <= when, stop at the first full backup; chronological order.
+\* strict: `when` is a truncated date string, which sorts before the full stamp of the same instant
+ChainOf(fs, when, strict) ==
+  LET IsLe(f) == IF strict THEN f.t < when ELSE f.t <= when
       le == SelectSeq(fs, IsLe)
       fulls == {i \in 1..Len(le) : le[i].full}
   IN IF fulls = {} THEN le ELSE SubSeq(le, Max(fulls), Len(le))
 
 \* the directory listing under a damage
+DataDmg(dm) == dm.t # 0 /\ dm.r < 4
+IndexDmg(dm) == dm.t # 0 /\ dm.r = 4
 EffOf(fs, dm) ==
-  LET Present(f) == ~(dm.kind = "missing" /\ f.t = dm.t)
+  LET Present(f) == ~(dm.kind = "missing" /\ DataDmg(dm) /\ Named(f, dm.t, dm.r))
   IN SelectSeq(fs, Present)
-StateOf(f, dm) == IF f.t = dm.t THEN dm.kind ELSE "none"
-Has(chain, t) == \E i \in 1..Len(chain) : chain[i].t = t
-Pos(chain, t) == CHOOSE i \in 1..Len(chain) : chain[i].t = t
+StateOf(f, dm) == IF DataDmg(dm) /\ Named(f, dm.t, dm.r) THEN dm.kind ELSE "none"
+HasFile(chain, t, r) == \E i \in 1..Len(chain) : Named(chain[i], t, r)
+PosFile(chain, t, r) == CHOOSE i \in 1..Len(chain) : Named(chain[i], t, r)
 
 (* ------------------------------- source -------------------------------- *)
 Op == ops < MaxOps /\ dmg = NoDmg /\ ops' = ops + 1
 Did(a) == [act |-> a, dec |-> "", why |-> ""]
 
 (* ------------------------------ do_recover ----------------------------- *)
-RecoverOf(fs, dm, d) ==
-  IF ChainByListing
-  THEN LET ch == ChainOf(EffOf(fs, dm), d)
-       IN IF ch = <<>> THEN [out |-> "nofiles", content |-> <<>>, ix |-> <<>>]
-          ELSE [out |-> "ok", content |-> Cat(ch), ix |-> ch[Len(ch)].ix]
-  ELSE LET ch == ChainOf(fs, d)
-       IN IF ch = <<>> THEN [out |-> "nofiles", content |-> <<>>, ix |-> <<>>]
-          ELSE IF dm.kind = "missing" /\ Has(ch, dm.t) THEN [out |-> "error", content |-> <<>>, ix |-> <<>>]
-          ELSE [out |-> "ok", content |-> Cat(ch), ix |-> ch[Len(ch)].ix]
+NoIx == [has |-> FALSE, bad |-> FALSE, v |-> <<>>]
+\* the index copied next to the output: the .index named like the last file of the chain, if there is one
+IxOf(ix, dm, t) ==
+  IF ~HasT(ix, t) \/ (IndexDmg(dm) /\ dm.t = t /\ dm.kind = "missing") THEN NoIx
+  ELSE IF IndexDmg(dm) /\ dm.t = t THEN [has |-> TRUE, bad |-> TRUE, v |-> <<>>]
+  ELSE [has |-> TRUE, bad |-> FALSE, v |-> AtT(ix, t).ix]
+
+Refused(o) == [out |-> o, content |-> <<>>, ix |-> NoIx]
+
+\* w: --with-verify (sizes and sums of the files *found* are compared with the .dat of the chain's first file)
+RecoverOf(fs, ix, dts, dm, d, strict, w) ==
+  LET missing == dm.kind = "missing" /\ DataDmg(dm)
+      ch == ChainOf(IF ChainByListing THEN EffOf(fs, dm) ELSE fs, d, strict)
+      lines == LinesAt(dts, ch[1].t)
+      Known(f) == \E i \in 1..Len(lines) : LineIs(lines[i], f)
+  IN IF ch = <<>> THEN Refused("nofiles")
+     ELSE IF ~ChainByListing /\ missing /\ HasFile(ch, dm.t, dm.r) THEN Refused("error")
+     ELSE IF w /\ (~HasT(dts, ch[1].t) \/ \E i \in 1..Len(ch) : ~Known(ch[i])) THEN Refused("error")
+     ELSE [out |-> "ok", content |-> Cat(ch), ix |-> IxOf(ix, dm, ch[Len(ch)].t)]
 
 \* C18, recovery: the committed part of the data file at the time of the last backup not later than
 \* the date that the repository still holds.  When a file the recovery needs has gone missing, the last
 \* backup the repository still holds in full is the one written just before the missing file: the tool
-\* may give that state or refuse; it must not give anything else.
+\* may give that state or refuse; it must not give anything else.  (ix: whether the restored index is judged -
+\* not when an .index file itself was damaged: nothing is recorded about those.)
 WantOf(fs, rs, dm, d) ==
   LET held == {i \in 1..Len(rs) : fs # <<>> /\ rs[i].t <= d /\ rs[i].t >= fs[1].t}
-      intended == ChainOf(fs, d)
-      older == {i \in 1..Len(fs) : fs[i].t < dm.t}
-  IN IF held = {} THEN [k |-> "none", run |-> 0, v |-> <<>>]
-     ELSE IF dm.kind = "missing" /\ Has(intended, dm.t)
-          THEN IF older = {} THEN [k |-> "refuse", run |-> 0, v |-> <<>>]
-               ELSE LET t == fs[Max(older)].t IN [k |-> "snap-or-refuse", run |-> t, v |-> rs[t].snap]
-          ELSE [k |-> "snap", run |-> Max(held), v |-> rs[Max(held)].snap]
+      intended == ChainOf(fs, d, FALSE)
+      older == {i \in 1..Len(fs) : Key(fs[i]) < dm.t * 4 + dm.r}
+      jx == IF IndexDmg(dm) THEN "any" ELSE "exact"
+  IN IF held = {} THEN [k |-> "none", run |-> 0, v |-> <<>>, ix |-> jx]
+     ELSE IF dm.kind = "missing" /\ DataDmg(dm) /\ HasFile(intended, dm.t, dm.r)
+          THEN IF older = {} THEN [k |-> "refuse", run |-> 0, v |-> <<>>, ix |-> jx]
+               ELSE LET b == fs[Max(older)].by IN [k |-> "snap-or-refuse", run |-> b, v |-> rs[b].snap, ix |-> jx]
+          ELSE [k |-> "snap", run |-> Max(held), v |-> rs[Max(held)].snap, ix |-> jx]
 
 (* ------------------------------ do_verify ------------------------------ *)
 \* "ok" | "fail" | "any" (any: the model does not say - an altered byte under quick verification)
-VerifyOf(fs, dm, n, q) ==
+VerifyOf(fs, dts, dm, n, q) ==
   LET listing == EffOf(fs, dm)
-      ch == ChainOf(IF ChainByListing THEN listing ELSE fs, n + 1)
-  IN IF ch = <<>> THEN "fail"                               \* NoFiles
-     ELSE IF ~ch[1].full THEN "fail"                       \* no .dat next to an incremental: OSError
-     ELSE LET lines == ch[1].dat
-              Line(l) == IF ~Has(listing, l.f) THEN "fail"                     \* "... is missing"
-                         ELSE LET st == StateOf(listing[Pos(listing, l.f)], dm)
-                              IN CASE st = "trunc" -> "fail"                    \* size differs
-                                   [] st = "alt" -> IF q THEN "any" ELSE "fail" \* checksum differs
-                                   [] OTHER -> "ok"
-              outs == {Line(lines[i]) : i \in 1..Len(lines)}
-          IN IF "fail" \in outs THEN "fail" ELSE IF "any" \in outs THEN "any" ELSE "ok"
+      Line(l) == IF ~\E i \in 1..Len(listing) : LineIs(l, listing[i]) THEN "fail"     \* "... is missing"
+                 ELSE LET f == listing[CHOOSE i \in 1..Len(listing) : LineIs(l, listing[i])]
+                          st == StateOf(f, dm)
+                      IN CASE st = "trunc" -> "fail"                                  \* size differs
+                           [] st = "alt" -> IF q THEN "any" ELSE "fail"               \* checksum differs
+                           [] OTHER -> "ok"
+      Outs(lines) == {Line(lines[i]) : i \in 1..Len(lines)}
+      Sum(outs) == IF "fail" \in outs THEN "fail" ELSE IF "any" \in outs THEN "any" ELSE "ok"
+  IN IF VerifyNewestOnly
+     THEN LET ch == ChainOf(IF ChainByListing THEN listing ELSE fs, n, FALSE)
+          IN IF ch = <<>> THEN "fail"                               \* NoFiles
+             ELSE IF ~HasT(dts, ch[1].t) THEN "fail"               \* no such .dat: OSError
+             ELSE Sum(Outs(AtT(dts, ch[1].t).lines))
+     ELSE IF fs = <<>> THEN "fail"
+          ELSE Sum(UNION {Outs(dts[j].lines) : j \in 1..Len(dts)})
 
-\* C18, verification (Damage only touches files of the chain verification is about)
+\* C18, verification: every data file of the repository, whatever its generation.  Nothing is recorded about
+\* .index files ("differs ... from what was recorded"), so their damage is exercised but not judged.
 MustOf(fs, dm, q) ==
   CASE dm.kind = "none" -> IF fs = <<>> THEN "any" ELSE "ok"
+    [] IndexDmg(dm) -> "any"
     [] dm.kind = "alt" -> IF q THEN "any" ELSE "fail"
     [] OTHER -> "fail"
 
-\* where the damaged file sits (names the failing case structurally in reports)
-DmgCtx(fs, dm, n) ==
-  IF dm.t = 0 THEN [target |-> "none", place |-> "none", older |-> FALSE]
-  ELSE LET ch == ChainOf(fs, n + 1)
-           m == Pos(ch, dm.t)
-       IN [target |-> IF ch[m].full THEN "full" ELSE "incr",
-           place |-> IF Len(ch) = 1 THEN "only" ELSE IF m = 1 THEN "first" ELSE IF m = Len(ch) THEN "last" ELSE "middle",
-           older |-> \E i \in 1..Len(fs) : fs[i].t < ch[1].t]
+\* where the damaged file sits (names the failing case structurally in reports): its generation = the files from
+\* the full backup before it (in name order) up to the next full backup
+DmgCtx(fs, dm, sh) ==
+  IF dm.t = 0 THEN [target |-> "none", place |-> "none", older |-> FALSE, shared |-> sh]
+  ELSE IF IndexDmg(dm) THEN [target |-> "index", place |-> "none", older |-> FALSE, shared |-> sh]
+  ELSE LET m == PosFile(fs, dm.t, dm.r)
+           fullsLe == {i \in 1..m : fs[i].full}
+           fullsGt == {i \in (m + 1)..Len(fs) : fs[i].full}
+           b == IF fullsLe = {} THEN 1 ELSE Max(fullsLe)
+           e == IF fullsGt = {} THEN Len(fs) ELSE Min(fullsGt) - 1
+           gen == IF fullsGt = {} THEN "" ELSE "older-"
+       IN [target |-> IF fs[m].full THEN gen \o "full" ELSE gen \o "incr",
+           place |-> IF b = e THEN "only" ELSE IF m = b THEN "first" ELSE IF m = e THEN "last" ELSE "middle",
+           older |-> b > 1, shared |-> sh]
 
-ObsOf(fs, rs, dm, n) ==
-  [recover |-> IF dm.kind \in {"none", "missing"}
-               THEN [d \in 1..n |-> [r |-> RecoverOf(fs, dm, d), want |-> WantOf(fs, rs, dm, d)]]
+ObsOf(fs, ix, dts, rs, dm, n, sh) ==
+  [recover |-> IF dm.kind \in {"none", "missing"} \/ IndexDmg(dm)
+               THEN [d \in 1..n |-> [r  |-> RecoverOf(fs, ix, dts, dm, d, FALSE, FALSE),
+                                     rw |-> RecoverOf(fs, ix, dts, dm, d, FALSE, TRUE),
+                                     rs |-> RecoverOf(fs, ix, dts, dm, d, ShortDateStrict, FALSE),
+                                     want |-> WantOf(fs, rs, dm, d)]]
                ELSE <<>>,
-   verify |-> [q \in BOOLEAN |-> [out |-> VerifyOf(fs, dm, n, q), must |-> MustOf(fs, dm, q)]],
-   ctx |-> DmgCtx(fs, dm, n)]
+   verify |-> [q \in BOOLEAN |-> [out |-> VerifyOf(fs, dts, dm, n, q), must |-> MustOf(fs, dm, q)]],
+   ctx |-> DmgCtx(fs, dm, sh)]
 
 Init == /\ src = <<1>> /\ tail = FALSE /\ fresh = 2 /\ packed = FALSE
-        /\ now = 0 /\ files = <<>> /\ runs = <<>> /\ dmg = NoDmg /\ ops = 0
+        /\ now = 0 /\ nb = 0 /\ same = 0 /\ files = <<>> /\ idx = <<>> /\ dats = <<>> /\ runs = <<>> /\ shared = FALSE
+        /\ dmg = NoDmg /\ ops = 0
         /\ res = Did("init")
-        /\ obs = ObsOf(<<>>, <<>>, NoDmg, 0)
+        /\ obs = ObsOf(<<>>, <<>>, <<>>, <<>>, NoDmg, 0, FALSE)
 
-SameRepo == UNCHANGED <<now, files, runs, dmg, obs>>
+SameRepo == UNCHANGED <<now, nb, same, files, idx, dats, runs, shared, dmg, obs>>
 
 \* tpc_finish of a new transaction, or of the voted one (its status byte changes: a new identity)
 Commit ==
@@ -226,7 +288,7 @@ Decide(o, ch) ==
   ELSE IF ch = <<>> THEN Dec("full", "norepo", 0)
   ELSE
   LET srcsz == Len(Bytes)
-      lines == IF ch[1].full THEN ch[1].dat ELSE <<>>                \* scandat(repofiles): last line of the .dat
+      lines == LinesAt(dats, ch[1].t)                  \* scandat(repofiles): the .dat named like the first file
       last == lines[Len(lines)]
       quick == OptQuick(o) /\ (lines = <<>> \/ QuickTrustsEmptyRange \/ last.s # last.e)
   IN
@@ -244,95 +306,130 @@ Decide(o, ch) ==
           ELSE IF SubSeq(Bytes, 1, reposz) = repo THEN Dec("incr", "prefix", reposz)
           ELSE Dec("full", "changed", 0)
 
-AddLine(fs, base, line) ==
-  [i \in 1..Len(fs) |-> IF fs[i].t = base THEN [fs[i] EXCEPT !.dat = Append(@, line)] ELSE fs[i]]
+\* delete_old_backups: everything but the full backup that comes last in name order goes, together with the
+\* .dat and .index named like each removed file
+KillOld(fs, ix, dts) ==
+  LET fulls == {i \in 1..Len(fs) : fs[i].full}
+      keep == fs[Max(fulls)]
+      gone == {fs[i].t : i \in (1..Len(fs)) \ {Max(fulls)}}
+  IN [files |-> <<keep>>, idx |-> DropT(ix, gone), dats |-> DropT(dts, gone)]
 
-Backup(o) ==
-  /\ Op /\ now < MaxBackups
-  /\ LET t == now + 1
-         ch == ChainOf(files, t)
+\* adv: seconds the clock moved since the last run (0: a second run within one clock second)
+Backup(o, adv) ==
+  /\ Op /\ nb < MaxBackups /\ nb' = nb + 1
+  /\ adv \in {0, 1} /\ (adv = 0 => (now >= 1 /\ same < MaxSame))
+  /\ same' = IF adv = 0 THEN same + 1 ELSE same
+  /\ LET t == now + adv
+         ch == ChainOf(files, t, FALSE)
          dc == Decide(o, ch)
          pos == CommittedEnd
-         full == [t |-> t, full |-> TRUE, gz |-> OptGz(o), content |-> src, ix |-> src,
-                  dat |-> <<[f |-> t, s |-> 0, e |-> pos, sum |-> src]>>]
-         inc == [t |-> t, full |-> FALSE, gz |-> OptGz(o), content |-> Range(src, dc.from, pos), ix |-> src,
-                 dat |-> <<>>]
+         by == Len(runs) + 1
+         full == [t |-> t, full |-> TRUE, gz |-> OptGz(o), content |-> src, by |-> by]
+         inc == [t |-> t, full |-> FALSE, gz |-> OptGz(o), content |-> Range(src, dc.from, pos), by |-> by]
+         new == IF dc.dec = "full" THEN full ELSE inc
+         line == [t |-> t, full |-> new.full, gz |-> new.gz, s |-> IF new.full THEN 0 ELSE dc.from, e |-> pos, sum |-> new.content]
+         used == \E i \in 1..Len(files) : files[i].t = t
+         exists == \E i \in 1..Len(files) : Key(files[i]) = Key(new)
+         refused == dc.dec # "nochange" /\ (IF SameStampAllowed THEN exists ELSE used)   \* WouldOverwriteFiles
      IN /\ dc.dec = "incr" => dc.from <= pos       \* copyfile asserts it copied pos - reposz bytes
         /\ now' = t
-        /\ runs' = Append(runs, [t |-> t, snap |-> src])
-        /\ files' = CASE dc.dec = "full" -> IF OptKill(o) THEN <<full>> ELSE Append(files, full)   \* delete_old_backups
-                      [] dc.dec = "incr" -> Append(AddLine(files, ch[1].t,
-                                                            [f |-> t, s |-> dc.from, e |-> pos, sum |-> inc.content]), inc)
-                      [] OTHER -> files
-        /\ res' = [act |-> "backup", dec |-> dc.dec, why |-> dc.why]
-        /\ obs' = ObsOf(files', runs', dmg, now')
+        /\ IF refused
+           THEN /\ UNCHANGED <<files, idx, dats, runs, shared>>
+                /\ res' = [act |-> "backup", dec |-> "refused", why |-> dc.dec]
+           ELSE /\ runs' = Append(runs, [t |-> t, snap |-> src])
+                /\ res' = [act |-> "backup", dec |-> dc.dec, why |-> dc.why]
+                /\ shared' = (shared \/ (dc.dec # "nochange" /\ used))
+                /\ CASE dc.dec = "full" ->
+                          LET f1 == Insert(files, full)
+                              i1 == SetT(idx, [t |-> t, ix |-> src])
+                              d1 == SetT(dats, [t |-> t, lines |-> <<line>>])          \* opened with mode 'w'
+                              k == KillOld(f1, i1, d1)
+                          IN IF OptKill(o) THEN files' = k.files /\ idx' = k.idx /\ dats' = k.dats
+                             ELSE files' = f1 /\ idx' = i1 /\ dats' = d1
+                     [] dc.dec = "incr" ->
+                          /\ files' = Insert(files, inc)
+                          /\ idx' = SetT(idx, [t |-> t, ix |-> src])
+                          /\ dats' = SetT(dats, [t |-> ch[1].t, lines |-> Append(LinesAt(dats, ch[1].t), line)])   \* mode 'a'
+                     [] OTHER -> UNCHANGED <<files, idx, dats>>
+        /\ obs' = ObsOf(files', idx', dats', runs', dmg, now', shared')
   /\ UNCHANGED <<src, tail, fresh, packed, dmg>>
 
 (* ------------------------------- damage -------------------------------- *)
-\* one file of the chain that verification (and a dateless recovery) is about; nothing happens afterwards
-Damage(t, kind) ==
+\* any one file of the repository: a data file (t, r) or the .index of second t (r = 4); nothing happens afterwards
+Damage(t, r, kind) ==
   /\ Op
-  /\ LET ch == ChainOf(files, now + 1)
-     IN /\ Has(ch, t)
-        /\ kind \in {"trunc", "alt"} => ch[Pos(ch, t)].content # <<>>
-  /\ dmg' = [t |-> t, kind |-> kind]
+  /\ IF r < 4
+     THEN /\ HasFile(files, t, r)
+          /\ kind \in {"trunc", "alt"} => files[PosFile(files, t, r)].content # <<>>
+     ELSE HasT(idx, t)
+  /\ dmg' = [t |-> t, r |-> r, kind |-> kind]
   /\ res' = Did("damage")
-  /\ obs' = ObsOf(files, runs, dmg', now)
-  /\ UNCHANGED <<src, tail, fresh, packed, now, files, runs>>
+  /\ obs' = ObsOf(files, idx, dats, runs, dmg', now, shared)
+  /\ UNCHANGED <<src, tail, fresh, packed, now, nb, same, files, idx, dats, runs, shared>>
 
 Kinds == {"missing", "trunc", "alt"}
-SourceStep == Commit \/ BeginTail \/ AbortTail \/ (\E k \in 1..MaxChunks : Pack(k))
+Times == 1..MaxBackups
 Next == \/ Commit \/ BeginTail \/ AbortTail
         \/ \E k \in 1..MaxChunks : Pack(k)
-        \/ \E o \in Opts : Backup(o)
-        \/ \E t \in 1..MaxBackups, k \in Kinds : Damage(t, k)
+        \/ \E o \in Opts, a \in {0, 1} : Backup(o, a)
+        \/ \E t \in Times, r \in 0..4, k \in Kinds : Damage(t, r, k)
 \* sub-relations for directed runs
 NextNoDamage == \/ Commit \/ BeginTail \/ AbortTail
                 \/ \E k \in 1..MaxChunks : Pack(k)
-                \/ \E o \in Opts : Backup(o)
-NextMissing == \/ Commit \/ BeginTail \/ AbortTail
-               \/ \E k \in 1..MaxChunks : Pack(k)
-               \/ \E o \in Opts : Backup(o)
-               \/ \E t \in 1..MaxBackups : Damage(t, "missing")
-
+                \/ \E o \in Opts, a \in {0, 1} : Backup(o, a)
+\* damage restricted to the files of the newest generation (the chain a dateless run works on)
+DamageNewest(t, r, kind) == HasFile(ChainOf(files, now, FALSE), t, r) /\ Damage(t, r, kind)
 NextMissingNoTail == \/ Commit
                      \/ \E k \in 1..MaxChunks : Pack(k)
-                     \/ \E o \in Opts : Backup(o)
-                     \/ \E t \in 1..MaxBackups : Damage(t, "missing")
+                     \/ \E o \in Opts : Backup(o, 1)
+                     \/ \E t \in Times, r \in 0..3 : DamageNewest(t, r, "missing")
+NextDataDamageNoTail == \/ Commit
+                        \/ \E k \in 1..MaxChunks : Pack(k)
+                        \/ \E o \in Opts : Backup(o, 1)
+                        \/ \E t \in Times, r \in 0..3, k \in Kinds : Damage(t, r, k)
+NextSteadyClock2 == \/ Commit \/ BeginTail \/ AbortTail
+                    \/ \E k \in 1..MaxChunks : Pack(k)
+                    \/ \E o \in Opts : Backup(o, 1)
+NextSteadyClock == \/ Commit
+                   \/ \E k \in 1..MaxChunks : Pack(k)
+                   \/ \E o \in Opts : Backup(o, 1)
 
 (* ------------------------------ properties ----------------------------- *)
-ObsDerived == obs = ObsOf(files, runs, dmg, now)
+ObsDerived == obs = ObsOf(files, idx, dats, runs, dmg, now, shared)
 
-\* recovering as of any date gives the committed part of the data file at the last backup not later than
-\* the date that the repository still holds, and the index saved with it
+\* recovering as of any date (in either form, with or without -w) gives the committed part of the data file at
+\* the last backup not later than the date that the repository still holds, and the index saved with it
+Exact(x, want) ==
+  LET ixok == want.ix = "any" \/ (x.ix.has /\ ~x.ix.bad /\ x.ix.v = want.v)
+  IN CASE want.k = "snap" -> x.out = "ok" /\ x.content = want.v /\ ixok
+       [] want.k = "snap-or-refuse" -> x.out = "ok" => (x.content = want.v /\ ixok)
+       [] want.k = "refuse" -> x.out # "ok"
+       [] OTHER -> TRUE
 RecoverExact ==
   \A d \in DOMAIN obs.recover :
-    LET x == obs.recover[d]
-    IN CASE x.want.k = "snap" -> x.r.out = "ok" /\ x.r.content = x.want.v /\ x.r.ix = x.want.v
-         [] x.want.k = "snap-or-refuse" -> x.r.out = "ok" => (x.r.content = x.want.v /\ x.r.ix = x.want.v)
-         [] x.want.k = "refuse" -> x.r.out # "ok"
-         [] OTHER -> TRUE
+    LET x == obs.recover[d] IN Exact(x.r, x.want) /\ Exact(x.rw, x.want) /\ Exact(x.rs, x.want)
 
 \* a backup holds complete transactions only, laid end to end from its recorded start
 BackupOnlyCompleteTxns ==
-  \A i \in 1..Len(files) :
-    /\ \A j \in 1..Len(files[i].content) : files[i].content[j] # TailId
-    /\ files[i].full => \A k \in 1..Len(files[i].dat) : files[i].dat[k].e - files[i].dat[k].s = Len(files[i].dat[k].sum)
+  /\ \A i \in 1..Len(files) : \A j \in 1..Len(files[i].content) : files[i].content[j] # TailId
+  /\ \A i \in 1..Len(dats) : \A k \in 1..Len(dats[i].lines) :
+       dats[i].lines[k].e - dats[i].lines[k].s = Len(dats[i].lines[k].sum)
 
-\* full verification passes on an intact repository and fails on a missing / truncated / altered file,
+\* full verification passes on an intact repository and fails on a missing / truncated / altered data file,
 \* quick verification on a missing / truncated one
 VerifyDetects ==
   \A q \in BOOLEAN : obs.verify[q].must # "any" => obs.verify[q].out = obs.verify[q].must
 
 \* do_incremental_backup never starts beyond the last complete transaction (copyfile asserts it)
 IncrWithinFile ==
-  (dmg = NoDmg /\ now < MaxBackups) =>
-    \A o \in Opts : LET dc == Decide(o, ChainOf(files, now + 1))
-                    IN dc.dec = "incr" => dc.from <= CommittedEnd
+  (dmg = NoDmg /\ nb < MaxBackups) =>
+    \A o \in Opts, a \in {0, 1} :
+      (a = 1 \/ now >= 1) => LET dc == Decide(o, ChainOf(files, now + a, FALSE))
+                             IN dc.dec = "incr" => dc.from <= CommittedEnd
 
 \* structure the transcription relies on
 RepoShape ==
-  /\ \A i \in 1..Len(files) : i > 1 => files[i - 1].t < files[i].t
-  /\ files # <<>> => files[1].full              \* without damage the oldest file is a full backup
-  /\ Len(runs) = now
+  /\ \A i \in 1..Len(files) : i > 1 => Key(files[i - 1]) < Key(files[i])
+  /\ Len(runs) <= nb
+  /\ \A i \in 1..Len(files) : files[i].by \in 1..Len(runs) /\ runs[files[i].by].t = files[i].t
 =============================================================================
